@@ -207,6 +207,9 @@ func removeLineIncludedTaxes(line *Line, cat cbc.Code) *Line {
 	if rate == nil || rate.Percent == nil {
 		return line
 	}
+	if line.Item == nil || line.Item.Price == nil {
+		return line // nothing to remove taxes from
+	}
 
 	l2 := *line
 	l2i := *line.Item
@@ -231,6 +234,10 @@ func removeSubLinesIncludedTaxes(sls []*SubLine, tc *tax.Combo, exp uint32) []*S
 	}
 	rows := make([]*SubLine, len(sls))
 	for i, sl := range sls {
+		if sl == nil || sl.Item == nil || sl.Item.Price == nil {
+			rows[i] = sl // nothing to remove taxes from
+			continue
+		}
 		sl2 := *sl
 		sl2i := *sl.Item
 		sl2i.AltPrices = nil
